@@ -11,7 +11,9 @@
    populations and the kill switch of the programs' apps enter as recorded environment values.
    DistributeExtRewardLend (230-314) with AddLendExternalRewards.  abci.go as repaired by b2d3331
    (each distribution in its own ApplyFuncIfNoError); gauge.go / iter.go as repaired by
-   fixes/C19-F2 and fixes/C19-F3.  Not modelled: stable-mint external programs. *)
+   fixes/C19-F2 and fixes/C19-F3.  Stable-mint external programs (CombinePSMUserPositions 345-384,
+   DistributeExtRewardStableVault 390-487, keeper.go ActExternalRewardsStableVaults) are added at the end of
+   this file as an extension of the state (rstate2 / gop2): the definitions above are unchanged. *)
 From Comdex Require Import Lib.Base Lib.DecArith Lib.F64.
 
 (* ---------------- SplitTotalAmountPerEpoch (uint64 arguments) ---------------- *)
@@ -617,3 +619,165 @@ Definition holds_C19_custody (d bal : Z) (gs : list gauge) (xs : list ext) : boo
 Definition holds_C19_share (coins total s payout : Z) : bool :=
   (0 <=? payout) &&
   (if total <=? 0 then payout =? 0 else payout * total * 1000000000000 <=? coins * s * 1000000000001).
+
+(* ==================================================================================================== *)
+(* Stable-mint external reward programs (additive extension).                                            *)
+(* x/rewards/keeper/iter.go CombinePSMUserPositions (345-384), DistributeExtRewardStableVault (390-487),  *)
+(* keeper.go ActExternalRewardsStableVaults (351-394), msg_server.go ExternalRewardsStableMint (120-142), *)
+(* abci.go steps 5 and 6.  Heights are block heights.                                                     *)
+(* ==================================================================================================== *)
+
+(* sx_next / sx_count: StartingTime / Count of the program's EpochTime record; sx_accept: AcceptedBlockHeight *)
+Record sext := mkSExt { sx_app : Z; sx_denom : Z; sx_avail : Z; sx_active : bool; sx_days : Z; sx_count : Z;
+                        sx_next : Z; sx_accept : Z }.
+(* one StableMintVaultRewards entry (user, BlockHeight, Amount) of the program's app, and - environment -
+   what the user holds of the minted asset: bank balance + amount farmed in the cswap app + amount lent
+   + locker balance (the four lookups of 431-446) *)
+Record srec := mkSRec { sr_acct : Z; sr_height : Z; sr_amount : Z; sr_hold : Z }.
+Definition srec_key_eq (a b : srec) : bool := (sr_acct a =? sr_acct b) && (sr_height a =? sr_height b).
+
+(* CombinePSMUserPositions, one program (its AcceptedBlockHeight) over the entries of its app at height h:
+   for every entry of the list read at the start that is older than [accept] and still stored, every OTHER
+   entry of the same user that is older than [accept] is added to it and deleted; the entry is stored with
+   the amount it had in the list plus what was added *)
+Definition mergeable (h accept : Z) (r i : srec) : bool :=
+  (sr_acct i =? sr_acct r) && (accept <? h - sr_height i) && negb (sr_height i =? sr_height r).
+Fixpoint combine_loop (h accept : Z) (snapshot store : list srec) : list srec :=
+  match snapshot with
+  | [] => store
+  | r :: rest =>
+      if (accept <? h - sr_height r) && existsb (srec_key_eq r) store then
+        let extra := zsum (map sr_amount (filter (mergeable h accept r) store)) in
+        let kept := filter (fun i => negb (mergeable h accept r i)) store in
+        combine_loop h accept rest
+          (map (fun i => if srec_key_eq r i then mkSRec (sr_acct r) (sr_height r) (sr_amount r + extra) (sr_hold i) else i) kept)
+      else combine_loop h accept rest store
+  end.
+Definition combine_psm (h accept : Z) (recs : list srec) : list srec := combine_loop h accept recs recs.
+
+(* the entries program-by-program: every program (active or not) whose app is [app] makes one pass *)
+Definition combined_for (h : Z) (all : list sext) (app : Z) (recs : list srec) : list srec :=
+  fold_left (fun rs x => if sx_app x =? app then combine_psm h (sx_accept x) rs else rs) all recs.
+
+(* finalDailyRewards of one entry: share = NewDec(eligible.Int64()).Quo(NewDecFromInt(totalMinted)),
+   epochRewards = NewDec(available.Int64()).Quo(NewDec(daysLeft)), share.Mul(epochRewards).TruncateInt().
+   The share is rounded to 18 decimals before it is multiplied (the pattern of the former C19-F3). *)
+Definition stable_final (avail dleft total elig : Z) : outcome Z :=
+  match int64_c elig, int64_c avail with
+  | Some e, Some a =>
+      if total =? 0 then Panic else
+      Ok (dtrunc_int (dmul (dquo (dec_of_int e) (dec_of_int total)) (dquo (dec_of_int a) (dec_of_int dleft))))
+  | _, _ => Panic
+  end.
+
+(* eligibleRewardAmt: the entry's amount, or the user's holdings when they are smaller *)
+Definition stable_elig (total : Z) (r : srec) : Z := if sr_amount r <=? sr_hold r then sr_amount r else sr_hold r.
+
+(* the loop over the entries of the program's app.  AvailableRewards is lowered and stored entry by entry,
+   and the NEXT entry's epoch rewards are computed from the lowered amount; a send that the module account
+   cannot cover is skipped together with the bookkeeping of that entry; once Count >= DurationDays the
+   first entry deactivates the program.  Result: module balance, AvailableRewards, IsActive, receipts. *)
+Fixpoint stable_loop (x : sext) (h total : Z) (recs : list srec) (bal avail : Z) (active : bool) : outcome (Z * Z * bool * pays) :=
+  match recs with
+  | [] => Ok (bal, avail, active, [])
+  | r :: rest =>
+      if negb active then stable_loop x h total rest bal avail active
+      else if sx_count x <? sx_days x then
+        if negb (sx_count x =? sx_days x - 1) && (h - sr_height r <? sx_accept x) then stable_loop x h total rest bal avail active
+        else
+          match stable_final avail (sx_days x - sx_count x) total (stable_elig total r) with
+          | Panic => Panic | Err c => Err c
+          | Ok f =>
+              if (0 <? f) && (f <=? bal) then
+                match stable_loop x h total rest (bal - f) (avail - f) active with
+                | Ok (b, a, act, ps) => Ok (b, a, act, (sr_acct r, f) :: ps)
+                | Err c => Err c | Panic => Panic
+                end
+              else stable_loop x h total rest bal avail active
+          end
+      else stable_loop x h total rest bal avail false
+  end.
+
+(* one program.  The EpochTime record is advanced for EVERY program at EVERY call (Count + 1,
+   StartingTime = now + one day), whether or not anything was due *)
+Definition stable_tick (now h total : Z) (recs : list srec) (bal : Z) (x : sext) : outcome (sext * Z * pays) :=
+  match (if sx_active x && (sx_next x <? now) then stable_loop x h total recs bal (sx_avail x) true
+         else Ok (bal, sx_avail x, sx_active x, [])) with
+  | Ok (bal', avail', act', paid) =>
+      Ok (mkSExt (sx_app x) (sx_denom x) avail' act' (sx_days x) (sx_count x + 1) (now + DAY) (sx_accept x), bal', paid)
+  | Err c => Err c
+  | Panic => Panic
+  end.
+
+(* DistributeExtRewardStableVault: the programs in id order; [se]: per program (positional) the total
+   TokenMintedAmount of the app's stable-mint pairs and the entries of its app as they were BEFORE the
+   hook (CombinePSMUserPositions, step 5, has run on them when step 6 reads them).  No kill-switch / ESM check. *)
+Definition hd_senv (l : list (Z * list srec)) : Z * list srec := match l with e :: _ => e | [] => (0, []) end.
+Fixpoint run_stables (now h : Z) (all xs : list sext) (se : list (Z * list srec)) (b : bank) : outcome (list sext * bank * dpays) :=
+  match xs with
+  | [] => Ok ([], b, [])
+  | x :: rest =>
+      let '(total, recs) := hd_senv se in
+      match stable_tick now h total (combined_for h all (sx_app x) recs) (b (sx_denom x)) x with
+      | Panic => Panic | Err c => Err c
+      | Ok (x', bal', paid) =>
+          match run_stables now h all rest (tl se) (bset b (sx_denom x) bal') with
+          | Ok (xs', b', ps) => Ok (x' :: xs', b', tag (sx_denom x) paid ++ ps)
+          | Err c => Err c | Panic => Panic
+          end
+      end
+  end.
+
+(* the rewards module with stable-mint programs *)
+Record rstate2 := mkR2 { r2_base : rstate; r2_sx : list sext }.
+Inductive gop2 :=
+| Base (o : gop)                                        (* every op of [gop] except Begin *)
+| SCreate (app denom total days accept now funds : Z) (ok : bool)
+    (* ActivateExternalRewardsStableMint; ok = neither the kill switch nor the ESM status of the app is on *)
+| Begin2 (now : Z) (e : benv) (h : Z) (se : list (Z * list srec)).
+
+(* rewards.BeginBlocker in full: steps 1-4 as [begin_block]; step 5 (CombinePSMUserPositions) changes only
+   the vault module's entries (computed by [combined_for] where they are read); step 6 in its own wrapper *)
+Definition begin_block2 (now : Z) (e : benv) (h : Z) (se : list (Z * list srec)) (s : rstate2) : outcome (rstate2 * dpays) :=
+  match begin_block now e (r2_base s) with
+  | Panic => Panic | Err c => Err c
+  | Ok (s1, p1) =>
+      let '(sx', b', p2) := sub_step (run_stables now h (r2_sx s) (r2_sx s) se (r_bal s1)) (r2_sx s) (r_bal s1) in
+      Ok (mkR2 (mkR b' (r_gauges s1) (r_epochs s1) (r_exts s1)) sx', p1 ++ p2)
+  end.
+
+Definition rstep2 (s : rstate2) (o : gop2) : outcome (rstate2 * dpays) :=
+  match o with
+  | Base (Begin _ _) => Err 1
+  | Base o' => match rstep (r2_base s) o' with
+               | Ok (b', ps) => Ok (mkR2 b' (r2_sx s), ps) | Err c => Err c | Panic => Panic end
+  | SCreate app d total days accept now funds ok =>
+      if (app <=? 0) || (total <=? 0) || (days <=? 0) || (accept <=? 0) || negb ok || (funds <? total) then Err 1
+      else let b := r2_base s in
+           Ok (mkR2 (mkR (bset (r_bal b) d (r_bal b d + total)) (r_gauges b) (r_epochs b) (r_exts b))
+                    (r2_sx s ++ [mkSExt app d total true days 0 (now + DAY) accept]), [])
+  | Begin2 now e h se => begin_block2 now e h se s
+  end.
+Definition rapply2 (s : rstate2) (o : gop2) : rstate2 := match rstep2 s o with Ok (s', _) => s' | _ => s end.
+Definition rrun2 (s : rstate2) (ops : list gop2) : rstate2 := fold_left rapply2 ops s.
+Definition rinit2 : rstate2 := mkR2 rinit [].
+
+Definition owed_sx (d : Z) (xs : list sext) : Z := zsum (map (fun x => if sx_denom x =? d then sx_avail x else 0) xs).
+Definition owed2 (d : Z) (s : rstate2) : Z := owed d (r2_base s) + owed_sx d (r2_sx s).
+Definition owed_sx_active (d : Z) (xs : list sext) : Z :=
+  zsum (map (fun x => if (sx_denom x =? d) && sx_active x then sx_avail x else 0) xs).
+Definition holds_C19_custody2 (d bal : Z) (gs : list gauge) (xs : list ext) (sxs : list sext) : bool :=
+  forallb (fun x => negb (x_denom x =? d) || (0 <=? x_avail x)) xs &&
+  forallb (fun x => negb (sx_denom x =? d) || (0 <=? sx_avail x)) sxs &&
+  (owed_active d gs xs + owed_sx_active d sxs <=? bal).
+
+(* well-formed stable-mint environment: entry amounts and holdings are not negative (sdk.Int amounts of
+   coins and balances) and the recorded total is not negative *)
+Definition senv_wf (e : Z * list srec) : bool :=
+  (0 <=? fst e) && forallb (fun r => (0 <=? sr_amount r) && (0 <=? sr_hold r)) (snd e).
+Definition op_wf2 (o : gop2) : bool :=
+  match o with
+  | Base o' => op_wf o'
+  | SCreate _ _ _ _ _ _ _ _ => true
+  | Begin2 now e h se => op_wf (Begin now e) && forallb senv_wf se
+  end.
